@@ -16,3 +16,49 @@ Theorem seq_order_like_kmers (C : codec) (xs ys : list N) :
 Proof.
   intros Hl Hx Hy. unfold kval. apply seq_cmp_numeric. exact Hl.
 Qed.
+
+(* ---------------- the minimum over a sequence's k-mers is its colexicographic minimiser -------- *)
+Lemma fold_min_le_init (l : list N) (a : N) : (fold_left N.min l a <= a)%N.
+Proof.
+  revert a. induction l as [|y l IH]; intros a; cbn [fold_left]; [apply N.le_refl|].
+  etransitivity; [apply IH | apply N.le_min_l].
+Qed.
+
+Lemma fold_min_le (l : list N) (a x : N) : In x (a :: l) -> (fold_left N.min l a <= x)%N.
+Proof.
+  revert a. induction l as [|y l IH]; intros a H; cbn [fold_left].
+  - destruct H as [->|[]]. apply N.le_refl.
+  - destruct H as [->|[->|H]].
+    + etransitivity; [apply fold_min_le_init | apply N.le_min_l].
+    + etransitivity; [apply fold_min_le_init | apply N.le_min_r].
+    + apply IH. right. exact H.
+Qed.
+
+Lemma fold_min_in (l : list N) (a : N) : In (fold_left N.min l a) (a :: l).
+Proof.
+  revert a. induction l as [|y l IH]; intros a; cbn [fold_left]; [left; reflexivity|].
+  destruct (IH (N.min a y)) as [E|H].
+  - rewrite <- E. destruct (N.min_spec a y) as [[_ ->]|[_ ->]]; [left|right; left]; reflexivity.
+  - right. right. exact H.
+Qed.
+
+Theorem minimiser_is_colex_least (C : codec) (w : list N) (ws : list (list N)) :
+  Forall (fun v => length v = length w /\ Forall (smallc C) v) (w :: ws) ->
+  exists m, In m (w :: ws) /\
+            kval C m = fold_left N.min (map (kval C) ws) (kval C w) /\
+            forall v, In v (w :: ws) -> colex m v <> Gt.
+Proof.
+  intros Hall. rewrite Forall_forall in Hall.
+  pose proof (fold_min_in (map (kval C) ws) (kval C w)) as Hin.
+  change (kval C w :: map (kval C) ws) with (map (kval C) (w :: ws)) in Hin.
+  apply in_map_iff in Hin. destruct Hin as [m [Em Hm]].
+  exists m. split; [exact Hm|]. split; [exact Em|].
+  intros v Hv.
+  destruct (Hall m Hm) as [Lm Sm]. destruct (Hall v Hv) as [Lv Sv].
+  rewrite <- (kmer_order_colex C m v) by (try assumption; congruence).
+  rewrite Em. apply N.compare_le_iff.
+  change (fold_left N.min (map (kval C) ws) (kval C w) <= kval C v)%N.
+  apply fold_min_le.
+  change (kval C w :: map (kval C) ws) with (map (kval C) (w :: ws)).
+  apply in_map. exact Hv.
+Qed.
